@@ -26,8 +26,10 @@ def run(ctx):
         if rng.random() < 0.4: X[: n // 2] += 8
         desc = dict(X=X, n_neighbors=k, n_epochs=E, random_state=seed)
         base = umap.UMAP(n_neighbors=k, n_epochs=E, random_state=seed).fit_transform(X)
-        for kw, nm in ((dict(dens_lambda=0.0), "lambda0"), (dict(dens_frac=0.0), "frac0")):
+        for kw, nm in ((dict(dens_lambda=0.0), "lambda0"), (dict(dens_frac=0.0), "frac0"),
+                       (dict(dens_lambda=0.0, output_dens=True), "lambda0_output_dens"), (dict(dens_frac=0.0, output_dens=True), "frac0_output_dens")):
             e2 = umap.UMAP(n_neighbors=k, n_epochs=E, random_state=seed, densmap=True, **kw).fit_transform(X)
+            if isinstance(e2, tuple): e2 = e2[0]
             ctx.tag(("bitid", c, nm), ["dens_off_" + nm])
             if not np.array_equal(base, e2, equal_nan=True):
                 ctx.fail("fit_transform:densmap_%s_differs_from_umap" % nm, "max abs difference %g" % np.nanmax(np.abs(base - e2)), dict(desc, **kw))
@@ -151,7 +153,10 @@ def run(ctx):
         n = rng.randint(20, 45); d = rng.randint(2, 5); E = rng.choice([0, 11, 30, 200]); k = rng.randint(3, 8); seed = rng.randrange(1000)
         X = npr.normal(size=(n, d)).astype(np.float32) * np.float32(10 ** rng.uniform(-1, 1))
         kwargs = dict(n_neighbors=k, n_epochs=E, random_state=seed, output_dens=True, densmap=rng.random() < 0.3 and E > 0)
-        iso = rng.random() < 0.5
+        clump = rng.random() < 0.5 or c == 0
+        if clump:      # more than n_neighbors coincident points: their graph neighbours are all at distance 0 (radius log(1e-8))
+            X[2: 2 + k + 3] = X[2]
+        iso = rng.random() < 0.5 and not kwargs["densmap"]   # densmap with an isolated sample is the recorded finding probed below
         if iso:
             X[0] += 1000; dd = np.sort(np.sqrt(((X[:, None] - X[None]) ** 2).sum(-1)), axis=1)
             kwargs["disconnection_distance"] = float(dd[1:, k].max() * 3)
@@ -198,7 +203,7 @@ def run(ctx):
                 ctx.fail("fit_transform:rad_emb_not_definition", "embedded radius differs from the same quantity on the embedding's fuzzy graph by %g" % np.abs(want2 - re_).max(), desc)
             rterms.append("(%d%%nat, [%s], %s)" % (n, "; ".join("(%d%%nat, %d%%nat, %s, %s)" % (i, j, fl(mu), fl(np.float32(D))) for i, j, mu, D in es2), flist(re_)))
             rcases.append(dict(desc, which="rad_emb"))
-        ctx.tag(("radii", c), ["radii"] + (["isolated"] if not live.all() else []) + (["pruned"] if not keep.all() else []))
+        ctx.tag(("radii", c), ["radii"] + (["duplicate_clump"] if clump else []) + (["isolated"] if not live.all() else []) + (["pruned"] if not keep.all() else []))
         ctx.sample(dict(n=n, kwargs={k_: v for k_, v in kwargs.items()}, rad_orig=ro[:5], rad_emb=re_[:5]), 1)
     bl = ctx.coq_eval("cases_C17_radii", hdr + "Eval vm_compute in map (verdict_radii %s) %s.\n" % (fl(RTOL), clist(rterms)), what="radii vs rad_orig_/rad_emb_")
     if bl is not None:
